@@ -107,8 +107,8 @@ theorem kept_eq_filter {cfg : Cfg} {rs : List Region} {ds : List WLine}
 theorem serialize_some {cfg : Cfg} {ord : List Key} {p : ℕ} {rs : List Region} {o : WOut}
     (h : serialize cfg ord p rs = .ok (some o)) :
     ∃ ds, collect (serializeRegion cfg) rs = .ok ds ∧ ds ≠ [] ∧
-      o = ⟨p, hoist cfg ord (ds.map fun d => hoistable cfg d.mta), commonFrame ds,
-           ds.map (dropGlobal (hoist cfg ord (ds.map fun d => hoistable cfg d.mta)))⟩ := by
+      o = ⟨p, hoist cfg ord (ds.map fun d => hoistable d.mta), commonFrame ds,
+           ds.map (dropGlobal (hoist cfg ord (ds.map fun d => hoistable d.mta)))⟩ := by
   unfold serialize at h
   by_cases hrs : rs = []
   · simp [hrs] at h
@@ -132,25 +132,40 @@ theorem commonFrame_map (f : WLine → WLine) (hf : ∀ d, (f d).frame = d.frame
 
 /-! ### include / exclude -/
 
-/-- the input classes on which the include sense survives (F4): with the repair, every `bool` or
-`int` value; without it, `False` is lost (written `include=False`, unreadable) and `0` is lost when
-every region of the list carries it (it is hoisted into `global` and the reader's sign default
-overrides it). -/
-def IncludeOK (cfg : Cfg) (hoisted : Bool) (r : Region) : Prop :=
+/-- `v` is not a bool. -/
+def notBool : Option PyVal → Prop
+  | some (.bool _) => False
+  | _ => True
+instance (v : Option PyVal) : Decidable (notBool v) := by unfold notBool; split <;> infer_instance
+
+/-- the input classes on which the include sense survives (F4): the writer prints the flag with
+`str()`, so a bool becomes `include=False` / `include=True`, which the reader drops as invalid
+(⇒ included).  Hence: an `int` flag survives unless it is `0` and was hoisted into the `global`
+line under the spelling of another region's `False` (`gInc` = the hoisted value); a bool flag
+survives if it is `True`, or — with the repair `cfg.includeInt` — is written as `int`.
+`gInc` must be an int or a bool (or absent). -/
+def IncludeOK (cfg : Cfg) (gInc : Option PyVal) (r : Region) : Prop :=
+  (match gInc with
+   | none => True
+   | some (.int _) => True
+   | some (.bool _) => True
+   | some _ => False) ∧
   match get r.mta .include with
   | none => True
-  | some (.int n) => cfg.includeInt = true ∨ n ≠ 0 ∨ hoisted = false
-  | some (.bool b) => cfg.includeInt = true ∨ b = true
+  | some (.int n) => n ≠ 0 ∨ notBool gInc
+  | some (.bool b) => (cfg.includeInt = true ∨ b = true) ∧ (b = true ∨ notBool gInc)
   | some _ => False
 
-instance (cfg : Cfg) (hoisted : Bool) (r : Region) : Decidable (IncludeOK cfg hoisted r) := by
+instance (cfg : Cfg) (gInc : Option PyVal) (r : Region) : Decidable (IncludeOK cfg gInc r) := by
   unfold IncludeOK
-  split <;> infer_instance
+  refine @instDecidableAnd _ _ ?_ ?_
+  · split <;> infer_instance
+  · split <;> infer_instance
 
 /-! ### one region -/
 
 /-- what the property says about one region `r` and the region `r'` read back. -/
-structure RoundTripped (cfg : Cfg) (hoisted : Bool) (sky : ℚ → ℚ) (p : ℕ) (r r' : Region) : Prop where
+structure RoundTripped (cfg : Cfg) (gInc : Option PyVal) (sky : ℚ → ℚ) (p : ℕ) (r r' : Region) : Prop where
   /-- the reader accepted the printed sizes (F19) -/
   wellRounded : WellRounded sky p r
   shape : r'.shape = ds9Class r.shape
@@ -158,44 +173,42 @@ structure RoundTripped (cfg : Cfg) (hoisted : Bool) (sky : ℚ → ℚ) (p : ℕ
   coords : r'.coords = r.coords.map (expCoord sky p (decide (r.frame = .image)))
   nums : r'.nums = expNums sky p (decide (r.frame = .image)) r.shape r.nums
   /-- the string of a text region -/
-  text : ∀ s, r.text = some (.str s) → braceSafe s → TextPlain cfg s → r'.text = some (.str s)
+  text : ∀ s, r.text = some (.str s) → r'.text = some (.str s)
   text_none : r.text = none → r'.text = none
   /-- the DS9 label of any other region -/
-  label : r.shape ≠ .text → ∀ s, get r.mta .text = some (.str s) → braceSafe s → TextPlain cfg s →
-    get r'.mta .text = some (.str s)
+  label : r.shape ≠ .text → ∀ s, get r.mta .text = some (.str s) → get r'.mta .text = some (.str s)
   label_none : get r.mta .text = none → get r'.mta .text = none
-  tags : ∀ l, get r.mta .tag = some (.strs l) → (∀ s ∈ l, braceSafe s) →
-    get r'.mta .tag = if l = [] then none else some (.strs l)
+  tags : ∀ l, get r.mta .tag = some (.strs l) → get r'.mta .tag = if l = [] then none else some (.strs l)
   tags_none : get r.mta .tag = none → get r'.mta .tag = none
-  incl : IncludeOK cfg hoisted r → includeSense r' = includeSense r
+  incl : IncludeOK cfg gInc r → includeSense r' = includeSense r
 
 section one
-variable {cfg : Cfg} {g : Dict} {ms : List Dict} {dm : Dict} {raw : Dict}
+variable {g : Dict} {ms : List Dict} {dm : Dict} {raw : Dict}
 
-theorem tag_not_global (hsound : HoistSound ms g) (hmem : hoistable cfg dm ∈ ms) : Key.tag ∉ keys g :=
-  fun hk => tag_not_hoistable cfg dm (hoist_key_mem hsound hk hmem)
+theorem tag_not_global (hsound : HoistSound ms g) (hmem : hoistable dm ∈ ms) : Key.tag ∉ keys g :=
+  fun hk => tag_not_hoistable dm (hoist_key_mem hsound hk hmem)
 
-theorem raw_tag (hsound : HoistSound ms g) (hmem : hoistable cfg dm ∈ ms) (hnd : (keys dm).Nodup)
-    (h : defineRaw cfg (gRead g) false (rawDict ((keys g).foldl AL.pop dm)) = .ok raw) :
-    get raw .tag = ((get dm .tag).bind (rawItem .tag)).bind (rawConv cfg .tag) := by
-  rw [raw_get cfg g dm raw hnd h, if_neg (tag_not_global hsound hmem)]
+theorem raw_tag (hsound : HoistSound ms g) (hmem : hoistable dm ∈ ms) (hnd : (keys dm).Nodup)
+    (h : defineRaw (gRead g) none (rawDict ((keys g).foldl AL.pop dm)) = .ok raw) :
+    get raw .tag = ((get dm .tag).bind (rawItem .tag)).bind (rawConv .tag) := by
+  rw [raw_get g dm raw hnd h, if_neg (tag_not_global hsound hmem)]
   cases (get dm .tag).bind (rawItem .tag) <;> simp
 
-theorem raw_text (hsound : HoistSound ms g) (hmem : hoistable cfg dm ∈ ms) (hnd : (keys dm).Nodup)
-    (h : defineRaw cfg (gRead g) false (rawDict ((keys g).foldl AL.pop dm)) = .ok raw)
-    (s : Str) (hd : get dm .text = some (.str ('{' :: s ++ ['}']))) (hb : braceSafe s) (ht : TextPlain cfg s) :
+theorem raw_text (hsound : HoistSound ms g) (hmem : hoistable dm ∈ ms) (hnd : (keys dm).Nodup)
+    (h : defineRaw (gRead g) none (rawDict ((keys g).foldl AL.pop dm)) = .ok raw)
+    (s : Str) (hd : get dm .text = some (.str ('{' :: s ++ ['}']))) :
     get raw .text = some (.str s) := by
-  rw [raw_get cfg g dm raw hnd h]
+  rw [raw_get g dm raw hnd h]
   have hitem : rawItem .text (.str ('{' :: s ++ ['}'])) = some (RVal.str s) := by
     unfold rawItem
     rw [if_neg (by decide)]
-    simp only [pyStr, stripVal_braced s hb]
+    simp only [pyStr, stripVal_braced s]
   by_cases hk : Key.text ∈ keys g
-  · rw [if_pos hk, if_neg (by decide)]
+  · rw [if_pos hk]
     obtain ⟨rv, hrv⟩ := gRead_isSome hk (by decide)
     obtain ⟨v, hv, hrv'⟩ := gRead_some hrv
     obtain ⟨v', hv', hs⟩ := hsound .text v hv _ hmem
-    rw [get_hoistable cfg dm .text (by decide) (by decide), hd] at hv'
+    rw [get_hoistable dm .text (by decide), hd] at hv'
     simp only [Option.some.injEq] at hv'
     subst hv'
     have : v = .str ('{' :: s ++ ['}']) := PySame.str_left (PySame.symm hs)
@@ -204,35 +217,35 @@ theorem raw_text (hsound : HoistSound ms g) (hmem : hoistable cfg dm ∈ ms) (hn
     simp only [Option.some.injEq] at hrv'
     subst hrv'
     rw [hrv]
-    exact rawConv_text cfg s ht
+    exact rawConv_text s
   · rw [if_neg hk, hd]
     simp only [Option.bind_some, hitem, Option.orElse_some]
-    exact rawConv_text cfg s ht
+    exact rawConv_text s
 
-theorem raw_text_none (hsound : HoistSound ms g) (hmem : hoistable cfg dm ∈ ms) (hnd : (keys dm).Nodup)
-    (h : defineRaw cfg (gRead g) false (rawDict ((keys g).foldl AL.pop dm)) = .ok raw)
+theorem raw_text_none (hsound : HoistSound ms g) (hmem : hoistable dm ∈ ms) (hnd : (keys dm).Nodup)
+    (h : defineRaw (gRead g) none (rawDict ((keys g).foldl AL.pop dm)) = .ok raw)
     (hd : get dm .text = none) : get raw .text = none := by
-  rw [raw_get cfg g dm raw hnd h]
+  rw [raw_get g dm raw hnd h]
   have hk : Key.text ∉ keys g := by
     intro hk
     have := hoist_key_mem hsound hk hmem
-    rw [← get_isSome_iff, get_hoistable cfg dm .text (by decide) (by decide), hd] at this
+    rw [← get_isSome_iff, get_hoistable dm .text (by decide), hd] at this
     simp at this
   rw [if_neg hk, hd]
   simp
 
-/-- the reader's `include` for a region whose written value is `iv`. -/
+/-- the reader's `include` of a region line: the hoisted value `v` (as the writer spelled it) when
+the `global` line has one, else the line's own value, else the sign default `1`. -/
 theorem raw_include (hnd : (keys dm).Nodup)
-    (h : defineRaw cfg (gRead g) false (rawDict ((keys g).foldl AL.pop dm)) = .ok raw) :
+    (h : defineRaw (gRead g) none (rawDict ((keys g).foldl AL.pop dm)) = .ok raw) :
     get raw .include =
-      if Key.include ∈ keys g then some (.int 1)
+      if Key.include ∈ keys g then (get (gRead g) .include).bind (rawConv .include)
       else match get dm .include with
         | none => some (.int 1)
-        | some v => rawConv cfg .include (.str (stripVal (pyStr v))) := by
-  rw [raw_get cfg g dm raw hnd h]
+        | some v => rawConv .include (.str (stripVal (pyStr v))) := by
+  rw [raw_get g dm raw hnd h]
   by_cases hk : Key.include ∈ keys g
-  · simp only [if_pos hk, if_true, Option.bind_some]
-    exact rawConv_include_one cfg
+  · simp only [if_pos hk]
   · simp only [if_neg hk, if_true]
     cases hd : get dm .include with
     | none => simp [rawConv_include_one]
@@ -248,12 +261,12 @@ theorem includeSense_of_get {r : Region} : includeSense r =
 /-- the per-region core of the round-trip theorem. -/
 theorem region_roundtrip (cfg : Cfg) (sky : ℚ → ℚ) (p : ℕ) (g : Dict) (ms : List Dict)
     (r : Region) (d : WLine) (rd : RegionData) (r' : Region)
-    (hwf : WF r) (hsound : HoistSound ms g) (hmem : hoistable cfg d.mta ∈ ms)
+    (hwf : WF r) (hsound : HoistSound ms g) (hmem : hoistable d.mta ∈ ms)
     (hd : serializeRegion cfg r = .ok (some d))
     (hrd : rd.frame = d.frame ∧ rd.shape = d.shape ∧ rd.params = d.params.map (rnd sky p) ∧
-      defineRaw cfg (gRead g) false (rawDict ((keys g).foldl AL.pop d.mta)) = .ok rd.raw)
+      defineRaw (gRead g) none (rawDict ((keys g).foldl AL.pop d.mta)) = .ok rd.raw)
     (hmk : makeRegion rd.frame rd.shape rd.params rd.raw = .ok r') :
-    RoundTripped cfg (decide (Key.include ∈ keys g)) sky p r r' := by
+    RoundTripped cfg (get g .include) sky p r r' := by
   obtain ⟨hcomp, hfn, hsp, htr⟩ := serializeRegion_some hd
   obtain ⟨hfr, hsh, hps, hraw⟩ := hrd
   obtain ⟨_, hwt, hwl, hvt, hvx, hvi, hnm⟩ := hwf
@@ -294,11 +307,11 @@ theorem region_roundtrip (cfg : Cfg) (sky : ℚ → ℚ) (p : ℕ) (g : Dict) (m
   refine ⟨hwr, e1.trans hcls.symm, e2.trans (hfr ▸ hframe), e3.trans hco.symm, e4.trans hnu.symm,
     ?_, ?_, ?_, ?_, ?_, ?_, ?_⟩
   · -- text of a text region
-    intro s hs hb ht
+    intro s hs
     have hshape : r.shape = .text := hwt.mpr (by simp [hs])
     have hdm : get d.mta .text = some (.str ('{' :: s ++ ['}'])) := by
       rw [hdtext, hwl hshape, hs]; rfl
-    rw [e5, if_pos (hrs_text.mpr hshape), raw_text hsound hmem hnd hraw s hdm hb ht]
+    rw [e5, if_pos (hrs_text.mpr hshape), raw_text hsound hmem hnd hraw s hdm]
     rfl
   · -- no text for other regions
     intro hs
@@ -307,11 +320,11 @@ theorem region_roundtrip (cfg : Cfg) (sky : ℚ → ℚ) (p : ℕ) (g : Dict) (m
       rw [hs] at this; simp at this
     rw [e5, if_neg (fun h => hshape (hrs_text.mp h))]
   · -- label
-    intro hshape s hs hb ht
+    intro hshape s hs
     have hdm : get d.mta .text = some (.str ('{' :: s ++ ['}'])) := by
       rw [hdtext, hs]; rfl
     rw [hmeta .text (by decide) (by decide) (fun h => absurd (hrs_text.mp h) hshape)]
-    exact raw_text hsound hmem hnd hraw s hdm hb ht
+    exact raw_text hsound hmem hnd hraw s hdm
   · -- no label
     intro hs
     by_cases hshape : r.shape = .text
@@ -325,16 +338,15 @@ theorem region_roundtrip (cfg : Cfg) (sky : ℚ → ℚ) (p : ℕ) (g : Dict) (m
       rw [hmeta .text (by decide) (by decide) (fun h => absurd (hrs_text.mp h) hshape)]
       exact raw_text_none hsound hmem hnd hraw hdm
   · -- tags
-    intro l hl hb
+    intro l hl
     rw [hmeta .tag (by decide) (by decide) (fun _ => by decide), raw_tag hsound hmem hnd hraw, hdtag, hl]
     simp only [Option.bind_some, rawItem, if_true, tagElems]
     cases l with
     | nil => simp
     | cons a t =>
       have hmap : (a :: t).map (fun s => stripVal ('{' :: s ++ ['}'])) = a :: t := by
-        have : ∀ s ∈ a :: t, stripVal ('{' :: s ++ ['}']) = s := fun s hs => stripVal_braced s (hb s hs)
         calc (a :: t).map (fun s => stripVal ('{' :: s ++ ['}'])) = (a :: t).map id :=
-              List.map_congr_left this
+              List.map_congr_left (fun s _ => stripVal_braced s)
           _ = a :: t := List.map_id _
       simp only [hmap, Option.bind_some, rawConv_tags]
       simp
@@ -347,7 +359,7 @@ theorem region_roundtrip (cfg : Cfg) (sky : ℚ → ℚ) (p : ℕ) (g : Dict) (m
     have hri : get r'.mta .include = get rd.raw .include :=
       hmeta .include (by decide) (by decide) (fun _ => by decide)
     rw [includeSense_of_get, includeSense_of_get, hri, raw_include hnd hraw]
-    unfold IncludeOK at hok
+    obtain ⟨hgok, hok⟩ := hok
     have hsense : ∀ n : Int, (match (if n = 0 ∨ n = 1 then some (PyVal.int n) else none) with
         | some v => v.truthy
         | none => true) = decide (n ≠ 0) := by
@@ -357,67 +369,100 @@ theorem region_roundtrip (cfg : Cfg) (sky : ℚ → ℚ) (p : ℕ) (g : Dict) (m
       · by_cases h1 : n = 1
         · subst h1; simp [PyVal.truthy]
         · simp [h0, h1]
-    cases hv : get r.mta .include with
-    | none =>
-      have hdm : get d.mta .include = none := by rw [hdinc, hv]; split <;> rfl
-      rw [hdm]
-      split_ifs <;> simp [PyVal.truthy]
-    | some v =>
-      rw [hv] at hok
-      cases v with
-      | int n =>
-        simp only at hok
-        by_cases hci : cfg.includeInt = true
-        · -- repaired: never hoisted, written as int
-          have hdm : get d.mta .include = some (.int n) := by rw [hdinc, hv, if_pos hci]; rfl
-          have hng : Key.include ∉ keys g := fun hk =>
-            include_not_hoistable cfg hci d.mta (hoist_key_mem hsound hk hmem)
-          rw [hdm, if_neg hng]
+    by_cases hk : Key.include ∈ keys g
+    · -- hoisted: the reader sees the spelling of the hoisted value `gv`
+      rw [if_pos hk, get_gRead_of_ne_tag g .include (by decide)]
+      obtain ⟨gv, hgv⟩ := Option.isSome_iff_exists.mp (get_isSome_iff.mpr hk)
+      rw [hgv] at hgok hok ⊢
+      simp only [Option.map_some, Option.bind_some]
+      -- this region's written flag is Python-equal to it
+      obtain ⟨w, hw, hs⟩ := hsound .include gv (get_mem hgv) _ hmem
+      rw [get_hoistable d.mta .include (by decide), hdinc] at hw
+      cases gv with
+      | int m =>
+        rw [rawConv_include_int, hsense]
+        cases hown : get r.mta .include with
+        | none => rw [hown] at hw; split at hw <;> simp at hw
+        | some own =>
+          rw [hown] at hw hok
+          cases own with
+          | int n =>
+            have hwn : w = .int n := by
+              split at hw
+              · simpa [pyInt] using hw.symm
+              · simpa using hw.symm
+            subst hwn
+            have := pySame_num_eq hs (x := (m : ℚ)) (y := (n : ℚ)) rfl rfl
+            have hmn : m = n := by exact_mod_cast this
+            subst hmn
+            simp [PyVal.truthy]
+          | bool b =>
+            have hwn : w.num? = some (if b then 1 else 0) := by
+              split at hw
+              · have : w = .int (if b then 1 else 0) := by simpa [pyInt] using hw.symm
+                subst this
+                cases b <;> simp [PyVal.num?]
+              · have : w = .bool b := by simpa using hw.symm
+                subst this; rfl
+            have := pySame_num_eq hs (x := (m : ℚ)) rfl hwn
+            cases b
+            · have hm : m = 0 := by
+                simp only [Bool.false_eq_true, if_false] at this; exact_mod_cast this
+              subst hm; simp [PyVal.truthy]
+            · have hm : m = 1 := by
+                simp only [if_true] at this; exact_mod_cast this
+              subst hm; simp [PyVal.truthy]
+          | _ => exact absurd hok (by simp)
+      | bool b' =>
+        rw [rawConv_include_bool]
+        -- dropped as invalid ⇒ included: this region must be included
+        cases hown : get r.mta .include with
+        | none => rfl
+        | some own =>
+          rw [hown] at hok
+          cases own with
+          | int n =>
+            rcases hok with h | h
+            · simp [PyVal.truthy, h]
+            · exact absurd h (by simp [notBool])
+          | bool b =>
+            rcases hok.2 with h | h
+            · subst h; rfl
+            · exact absurd h (by simp [notBool])
+          | _ => exact absurd hok (by simp)
+      | _ => exact absurd hgok (by simp)
+    · -- not hoisted: the region's own written flag (or the sign default)
+      rw [if_neg hk, hdinc]
+      cases hown : get r.mta .include with
+      | none =>
+        simp only [Option.bind_none, ite_self]
+        simp [PyVal.truthy]
+      | some own =>
+        rw [hown] at hok
+        cases own with
+        | int n =>
+          have : (if cfg.includeInt = true then
+              (some (PyVal.int n)).bind (fun v => match pyInt v with
+                | .ok n => some (.int n)
+                | .error _ => none) else some (PyVal.int n)) = some (.int n) := by
+            split <;> rfl
+          rw [this]
           simp only
           rw [rawConv_include_int, hsense]
           simp [PyVal.truthy]
-        · have hdm : get d.mta .include = some (.int n) := by rw [hdinc, hv, if_neg hci]
-          rw [hdm]
-          by_cases hk : Key.include ∈ keys g
-          · rw [if_pos hk]
-            rcases hok with h | h | h
-            · exact absurd h hci
-            · simp [PyVal.truthy, h]
-            · simp [hk] at h
-          · rw [if_neg hk]
-            simp only
+        | bool b =>
+          by_cases hci : cfg.includeInt = true
+          · rw [if_pos hci]
+            simp only [Option.bind_some, pyInt]
             rw [rawConv_include_int, hsense]
-            simp [PyVal.truthy]
-      | bool b =>
-        simp only at hok
-        by_cases hci : cfg.includeInt = true
-        · have hdm : get d.mta .include = some (.int (if b then 1 else 0)) := by
-            rw [hdinc, hv, if_pos hci]; rfl
-          have hng : Key.include ∉ keys g := fun hk =>
-            include_not_hoistable cfg hci d.mta (hoist_key_mem hsound hk hmem)
-          rw [hdm, if_neg hng]
-          simp only
-          rw [rawConv_include_int, hsense]
-          cases b <;> simp [PyVal.truthy]
-        · have hb : b = true := by
-            rcases hok with h | h
-            · exact absurd h hci
-            · exact h
-          subst hb
-          have hdm : get d.mta .include = some (.bool true) := by rw [hdinc, hv, if_neg hci]
-          rw [hdm]
-          by_cases hk : Key.include ∈ keys g
-          · rw [if_pos hk]; simp [PyVal.truthy]
-          · rw [if_neg hk]
+            cases b <;> simp [PyVal.truthy]
+          · rw [if_neg hci]
             simp only
             rw [rawConv_include_bool]
-            simp [PyVal.truthy]
-      | flt q s => exact absurd hok (by simp)
-      | special s => exact absurd hok (by simp)
-      | str s => exact absurd hok (by simp)
-      | strs l => exact absurd hok (by simp)
-      | dashes o l => exact absurd hok (by simp)
-      | marker s => exact absurd hok (by simp)
+            rcases hok.1 with h | h
+            · exact absurd h hci
+            · subst h; rfl
+        | _ => exact absurd hok (by simp)
 
 /-! ### list plumbing -/
 
